@@ -317,3 +317,52 @@ def rule_rule_on_enter(db: ProgramDB) -> List[Instance]:
                     "rule_mode(query) the selected variable is not inferred, and a match without an applicable conclusion (a stopping refinement) "
                     "emits every T that exists", line=en.lineno))
     return out
+
+
+# ---------------------------------------------------------------------------------- ALT-LEFT-TRUTH
+def rule_alt_left_truth(db: ProgramDB) -> List[Instance]:
+    """An alternative decides which branch's conclusion applies to a row from the truth flag of its left side (the branches
+    before it).  The else-if it extends has a path on which the left side yields no row at all and the right side runs on the
+    incoming binding: on that path the left flag is whatever an earlier row left in it, so it has to be set to 'false' before
+    the first row of the right side is handed on - otherwise the alternative's matches get the conclusion of the base."""
+    from ..cfg import CFG
+    out = []
+    alt = db.cls("Alternative")
+    am = alt.methods.get("_evaluate__")
+    if am is None:
+        raise AnalysisError("Alternative._evaluate__ not found")
+    reads_left_flag = any(isinstance(x, ast.Attribute) and x.attr == "_is_false_" and unparse(x.value) == "self.left" for x in own_nodes(am.node))
+    if not reads_left_flag:
+        out.append(inst("ALT-LEFT-TRUTH", INFO, am, "Alternative._evaluate__", "does not decide by the left side's truth flag"))
+        return out
+    ei = db.method("ElseIf", "_evaluate__", inherited=False)
+    cfg = CFG(ei)
+    flags = set()
+    for l in [n for n in own_nodes(ei.node) if isinstance(n, ast.For)]:
+        for s in l.body[:2]:
+            if isinstance(s, ast.Assign) and isinstance(s.value, ast.Constant) and s.value.value is True and isinstance(s.targets[0], ast.Name):
+                flags.add(s.targets[0].id)
+    tests = [nd for nd in cfg.nodes if nd.kind == "test" and isinstance(nd.stmt, ast.If) and isinstance(nd.stmt.test, ast.UnaryOp)
+             and isinstance(nd.stmt.test.op, ast.Not) and isinstance(nd.stmt.test.operand, ast.Name) and nd.stmt.test.operand.id in flags]
+    if not tests:
+        out.append(inst("ALT-LEFT-TRUTH", HOLDS, ei, "ElseIf._evaluate__[left side yielded nothing]", "no separate path for a left side without rows"))
+        return out
+    for t in tests:
+        def sets_left_false(nd):
+            a = nd.ast
+            return nd.kind == "stmt" and isinstance(a, ast.Assign) and any(unparse(x) == "self.left._is_false_" for x in a.targets) \
+                and isinstance(a.value, ast.Constant) and a.value.value is True
+        bad = None
+        for e in cfg.succ[t.id]:
+            if e.kind == "n" and e.label == "T":
+                first = cfg.nodes[e.dst]
+                if sets_left_false(first):
+                    continue
+                p = cfg.find_path(first.id, lambda nd: nd.has_yield, kinds=("n",), blocked=sets_left_false)
+                if p is not None or first.has_yield:
+                    bad = [e] + (p or [])
+        out.append(inst("ALT-LEFT-TRUTH", VIOLATION if bad else HOLDS, ei, "ElseIf._evaluate__[left side yielded nothing]",
+                        "rows of the right side are handed on with the left side's flag still holding what an earlier row left in it: an "
+                        "alternative whose base matches nothing at all applies the BASE's conclusion to its own matches (" + " ".join(cfg.describe_path(bad)[-2:]) + ")" if bad else
+                        "the left side's flag is set to false before the right side's rows are handed on", line=t.lineno))
+    return out
